@@ -241,6 +241,27 @@ def einsum_as_matmul(spec, ts):
     return None
 
 
+def select_where(it, args, node, kind):
+    """where(c, a, b): elementwise selection; the result has the broadcast shape of the three operands."""
+    from .ops import broadcast
+
+    c, a, b = args
+    sh = ()
+    try:
+        for x in (c, a, b):
+            xs = tshape(x) if isinstance(x, VTens) else ()
+            if xs is None:
+                sh = None
+                break
+            sh = broadcast(sh, xs, it.site(node))
+    except ShapeMismatch as e:
+        it.shape_errors.append((it.site(node), "where: %s" % e))
+        sh = None
+    ts = [tterm(x) if isinstance(x, VTens) else num_term(x) for x in (c, a, b)]
+    t = T.app("where", *ts) if all(x is not None for x in ts) else None
+    return it.fresh(t, sh, kind, node)
+
+
 def literal_tensor(it, v, node, kind="tensor"):
     """torch.tensor / np.array of python data."""
     if isinstance(v, VTens):
@@ -392,6 +413,18 @@ def _call_ext(it, name, args, kwargs, node):
         inst.ext = "torch.device"
         inst.attrs["type"] = args[0] if args else VUnknown("devtype", "str")
         return VObj(inst)
+    if n in ("torch.finfo", "numpy.finfo"):
+        # machine parameters of a float type; torch.finfo() without an argument is the default dtype, float32
+        w = dtype_width(args[0]) if args else (32 if n == "torch.finfo" else 64)
+        inst = Instance(None)
+        inst.ext = n
+        if w in (32, 64):
+            vals = {64: {"eps": 2.220446049250313e-16, "tiny": 2.2250738585072014e-308, "max": 1.7976931348623157e308, "min": -1.7976931348623157e308, "bits": 64},
+                    32: {"eps": 1.1920928955078125e-07, "tiny": 1.1754943508222875e-38, "max": 3.4028234663852886e38, "min": -3.4028234663852886e38, "bits": 32}}[w]
+            for k_, v_ in vals.items():
+                inst.attrs[k_] = VConst(v_)
+            inst.attrs["smallest_normal"] = VConst(vals["tiny"])
+        return VObj(inst)
     if n == "torch.Size":
         return args[0] if args and isinstance(args[0], VTuple) else (VTuple(it.concrete_items(args[0])) if args and it.concrete_items(args[0]) is not None else VUnknown("size", "shape"))
     if n == "torch.save":
@@ -533,8 +566,69 @@ def call_opaque(it, f, args, kwargs, node):
 
 
 # ------------------------------------------------------------------------------ torch functions
+_WIDTH = {"double": 64, "float64": 64, "float": 32, "float32": 32}
+
+
+def dtype_width(v):
+    """64 / 32 for a torch / numpy float dtype value, 'other' for a non-float dtype, None when unknown."""
+    n = None
+    if isinstance(v, VExt):
+        n = v.name.rsplit(".", 1)[-1]
+    elif isinstance(v, VConst) and isinstance(v.value, str):
+        n = v.value
+    elif isinstance(v, VUnknown) and v.kind == "dtype" and getattr(v, "of_obj", None) is not None:
+        return v.of_obj.float_width() or (64 if v.of_obj.valkind not in ("bool", "index", "perm", "str") else None)  # untracked: the library's floats are float64
+    if n is None:
+        return None
+    return _WIDTH.get(n, "other")
+
+
+def _has_pyfloat(it, x):
+    """(has a python float, has a python float that float32 cannot hold exactly)"""
+    import struct
+
+    if isinstance(x, (VList, VTuple)):
+        items = it.concrete_items(x)
+        if items is None:
+            return (False, False)
+        rs = [_has_pyfloat(it, e) for e in items]
+        return (any(r[0] for r in rs), any(r[1] for r in rs))
+    if isinstance(x, VConst) and isinstance(x.value, float):
+        try:
+            exact = struct.unpack("f", struct.pack("f", x.value))[0] == x.value
+        except (OverflowError, struct.error):
+            exact = False
+        return (True, not exact)
+    if isinstance(x, VNum) and x.kind in ("float", "npfloat"):
+        return (True, True)
+    return (False, False)
+
+
 def call_torch(it, f, args, kwargs, node):
     r = _call_torch(it, f, args, kwargs, node)
+    if isinstance(r, VTens) and r.obj.origin == "fresh" and not r.view and isinstance(kwargs, dict):
+        w = dtype_width(kwargs.get("dtype")) if kwargs.get("dtype") is not None else None
+        if w in (32, 64):
+            r.obj.fw = w
+        elif kwargs.get("dtype") is None:
+            if f in ("Tensor", "FloatTensor"):
+                r.obj.fw = 32
+                if args and isinstance(args[0], VTens) and args[0].obj.float_width() == 64:
+                    it.narrowings.append((it.site(node), "float64 data is converted to float32 (torch.%s of an array)" % f, args[0].obj))
+            elif f == "DoubleTensor":
+                r.obj.fw = 64
+            elif f in ("tensor", "as_tensor") and args:
+                x = args[0]
+                if isinstance(x, VTens):
+                    r.obj.fw = x.obj.float_width()
+                else:
+                    hasf, inexact = _has_pyfloat(it, x)
+                    if hasf:
+                        r.obj.fw = 32  # torch's default dtype for python floats
+                        if inexact:
+                            it.narrowings.append((it.site(node), "python floats are stored as float32 (torch.tensor without dtype)", r.obj))
+            elif f in ("zeros", "ones", "rand", "randn", "empty", "full", "eye", "linspace"):
+                r.obj.fw = 32
     dv = kwargs.get("device") if isinstance(kwargs, dict) else None
     if dv is not None and isinstance(r, VTens) and not (isinstance(dv, VConst) and dv.value is None) and r.obj.origin == "fresh":
         r.obj.device_val = dv  # created on the requested device
@@ -572,6 +666,13 @@ def _call_torch(it, f, args, kwargs, node):
         if f in ("as_tensor", "from_numpy") and isinstance(x, VTens):
             r.obj.may_alias.add(x.obj)
         return r
+    if f == "promote_types" and len(args) == 2:
+        wa, wb = dtype_width(args[0]), dtype_width(args[1])
+        if wa in (32, 64) and wb in (32, 64):
+            return VExt("torch.float64" if max(wa, wb) == 64 else "torch.float32")
+        u = VUnknown("promote_types", "dtype")
+        u.not_none = True
+        return u
     if f in ("equal", "allclose") and len(args) >= 2 and isinstance(args[0], VTens) and isinstance(args[1], VTens):
         a, b = args[0], args[1]
         if a.term is not None and a.term == b.term and a.shape is not None and tuple(a.shape) == tuple(b.shape or ()):
@@ -726,6 +827,8 @@ def _call_torch(it, f, args, kwargs, node):
         return VTens(x.obj, x.view + (("op", "diagonal"),), shape)
     if f in ("clone", "detach"):
         return tensor_method(it, args[0], f, [], {}, node)
+    if f == "where" and len(args) == 3:
+        return select_where(it, args, node, "tensor")
     if f in ("unsqueeze", "squeeze", "reshape", "clamp", "abs", "round", "flip", "where", "masked_select", "index_select"):
         if isinstance(args[0], VTens):
             return tensor_method(it, args[0], f, list(args[1:]), kwargs, node)
@@ -821,6 +924,9 @@ def call_numpy(it, f, args, kwargs, node):
     if f in ("ones", "zeros"):
         shape = shape_from_args([args[0]])
         return it.fresh(T.ONE if f == "ones" else T.ZERO, shape, "ndarray", node)
+    if f == "flatnonzero" and len(args) == 1:
+        r = call_numpy(it, "where", args, {}, node)
+        return r.items[0] if isinstance(r, VTuple) else r
     if f == "where":
         if len(args) == 1:
             x = args[0]
@@ -836,6 +942,8 @@ def call_numpy(it, f, args, kwargs, node):
                     DIM_BOUNDS[nm_] = bt
             r.obj.valkind = "index"
             return VTuple([r] * max(1, (x.rank or 1))) if isinstance(x, VTens) else VTuple([r])
+        if len(args) == 3:
+            return select_where(it, args, node, "ndarray")
         return opaque_tensor(it, "numpy.where", args, kwargs, node, kind="ndarray")
     if f == "unique":
         x = args[0]
